@@ -280,6 +280,31 @@ def link_edges():
     return list(dict.fromkeys(out))
 
 
+def inline_edges():
+    """Witness documents of the defects the function-level building blocks found (builder sessions B1-B6: numeric character
+    references out of range, empty comment / start tag ending in '/', empty link titles, '<' inside an angle destination,
+    backslash-space in a destination, rule of 3 on partly consumed runs, looseness through several list ends / block quotes / link
+    reference definitions, blank indented code behind a list marker, token fixers that expose each other) and their one-deletion
+    neighbours.  No in-band marker characters (those are C02's codec space)."""
+    w = ["a <!----> b", "a <!---> b", "a <!--> b", "a <!-- --> b", "&#x110000;", "&#1114112;", "&#xFFFFFF;", "&#9999999;", "&#xD800;", "&#xDFFF;", "&#0;", "&#x10FFFF;",
+         "<a /", "<a b /", "<abc /", "<a / >", "a <a b=> c", "a <a b= > c", "a <a b=c> d", "a <http://a\x7fb> c", "a <foo@bar.com\n    > b", "a </a\n    > b", "a <!A\nb> c",
+         "[a](/u \"\")", "[a](/u '')", "[a](/u ())", "![a](/u \"\")", "[a](<b<c>)", "[a](/u\\ \"t\")", "[a](/u\\\t\"t\")", "[a](<u>\"t\")",
+         "[a](/u \"&#x110000;\")", "[a](/u&#xD800;)", "[a](/u \"&#xD800;\")", "[a](/u (a(b)c))", "[a](<% 1>)", "[a](/%+1)", "[a](/u \"t\" )",
+         "*a***a*", "***a*a*a", "****a***a", "*a****a**", "a*\u00a3b*", "a*\U000110c1b*", "a*\U000100c1b*", "a*\uff5fb*", "<a&b@c.de>",
+         "- - - a\n\n  b\n", "- - a\n\n    > b\n- c\n", "- [r]: /u\n\n  - x\n- y\n", "- a\n\n  [r]: /u\n\n  c\n", "- > - a\n  >\n  > x\n",
+         "-     ", "*     ", "1.     ", "-      x", "x `  a` y", "x ` ` y", "x `` y", "# a\n\n###\tb\n", "- a\n\n+ ---\n", "---\n\n- * * *\n",
+         "1. a\n 1. b\n  1. c\n   1. d\n1. e\n", "10. x\n", "9. a\n10.\n11. c\n", "<div/ class=\"x\">\n*foo*", "para\n<p/ x", "> a\n\n> b\n\n> c\n",
+         "- >\n>  b\n", "* > # heading\n>  text\n", "- abc\n1. [foo]:\n\nbar", "a [b](/u\n  \"t\n z\") <k>\n---\n"]
+    out = []
+    for d in w:
+        out += [d, d + "\n" if not d.endswith("\n") else d[:-1]]
+        if len(d) <= 40:
+            out += [d[:i] + d[i + 1:] for i in range(len(d))]
+    lab = "a" * 1000
+    out += [f"[{lab}]: /u\n\n[{lab}]\n", f"[{lab[:999]}]: /u\n\n[{lab[:999]}]\n"]
+    return list(dict.fromkeys(x for x in out if x))
+
+
 MULTI = ["`a\nb`", "``a\n b``", "[a\nb](/u)", "[a](/u\n\"t\")", "[a](\n/u)", "<b\nc>", "<b c=\"d\ne\">", "![a\nb](/u)", "![a](/u\n\"t\")", "[a\nb][r]",
          "[a\nb]", "[a][r\ns]", "![a][r\ns]", "x\\\ny", "x  \ny", "*a\nb*", "**a\nb**", "<!-- a\nb -->", "<http://a.b>\nq"]
 
